@@ -60,7 +60,22 @@ func c17Dyadic(r *core.Result, z fp.Element, e uint32) {
 	}
 }
 
+// the previous non-nil root and its argument: a result must stay valid after later calls
+var (
+	c17PrevRoot *fp.Element
+	c17PrevV    *big.Int
+	c17PrevLbl  string
+)
+
 func c17Sqrt(r *core.Result, v *big.Int, label string) {
+	defer func() {
+		if c17PrevRoot != nil {
+			if got := fpToBig(*c17PrevRoot); ref.MulP(got, got).Cmp(c17PrevV) != 0 {
+				vio(r, "c17.result_stable", "fp.SqrtPrecomp", c17PrevLbl+" (root kept by the caller), then "+label, "the earlier result is unchanged by a later call", got.Text(16))
+				c17PrevRoot = nil
+			}
+		}
+	}()
 	x := fpFromBig(v)
 	keep := x
 	var res *fp.Element
@@ -80,6 +95,8 @@ func c17Sqrt(r *core.Result, v *big.Int, label string) {
 		got := fpToBig(*res)
 		if ref.MulP(got, got).Cmp(v) != 0 {
 			vio(r, "c17.sqrt", "fp.SqrtPrecomp", label, "root^2 = v", got.Text(16))
+		} else if c17PrevRoot == nil || v.Bit(0) == 1 {
+			c17PrevRoot, c17PrevV, c17PrevLbl = res, v, label
 		}
 	}
 }
